@@ -94,6 +94,10 @@ def gen_grammars(prop, tier, n, profile):
                 g = gg.clone(g)
                 for i, r in enumerate(g.rules):
                     if r.ftor == 'f' and g.vtypes[r.lhs] in ('V', 'W') and rnd.random() < 0.3: g.rules[i] = gg.Rule(r.lhs, r.rhs, r.prec, 'lr')
+            if rnd.random() < 0.5:
+                g = gg.clone(g)
+                for i, r in enumerate(g.rules):
+                    if r.ftor == 'f' and g.vtypes[r.lhs] in ('V', 'W') and rnd.random() < 0.4: g.rules[i] = gg.Rule(r.lhs, r.rhs, r.prec, 'st')      # functor objects with state of their own
             add(g)
     elif profile == 'values':     # C14: decorated + error rules + move-only instantiations
         for g in gg.err_core(): add(gg.decorate(g, rnd, strings=0))
@@ -370,6 +374,15 @@ def c09(tier):
     gs = [nonprintable_terms(g, rnd) if (i % 4 == 1 and len(g.terms) <= 12 and not getattr(g, 'lexspec', None)) else g for i, g in enumerate(gs)]
     gs = [backtrack_terms(g, rnd) if (i % 4 == 2 and len(g.terms) <= 12 and not getattr(g, 'lexspec', None)) else g for i, g in enumerate(gs)]
     merge(ck, run_pipeline('C09', tier, gs, cfg))
+    # one lexeme of the generated lexer of 65534..65537 (and more) bytes, in accepted, syntactically and lexically wrong inputs
+    from .grammar import simple
+    lg = simple('S->w , | S w ,')
+    lg.terms = [gg.Term('r', '[a-z]+', name='word') if t.text == 'w' else t for t in lg.terms]; lg.note = 'c09:long-lexeme'
+    lin = []
+    for n in (65534, 65535, 65536, 65537, 131071):
+        w = bytes(rnd.choice(b'abcxyz') for _ in range(n))
+        lin += [w + b',', b'ab,' + w + b',cd,', w + b' ,,', w + b'?', w]
+    merge(ck, common.pmap(pipeline.worker, [{'prop': 'C09', 'grammars': [lg.to_json()], 'seed': 1, 'flavour': 'clang1', 'cfg': {'modes': [0, 3, 4], 'timeout': 600}, 'explicit_inputs': [[d.hex() for d in lin]]}]))
     ck.cov['rule'] = ('LR(1) grammars without error rules (char, string and typed terms); every input is parsed with a std::ostringstream; the complete stream text must equal '
                       'the single expected message (or nothing), with the offending term decided by the reference; the bounds-monitoring buffer records how far the '
                       'input was examined; distinct_nontrivial = distinct rejected (grammar,input) pairs')
@@ -606,7 +619,7 @@ def c08(tier):
 def c13(tier):
     ck = Check('C13', tier)
     q = tier == 'quick'
-    cfg = {'modes': [0, 20, 21, 22, 23, 24, 25, 26, 27, 28, 29, 30, 31], 'exh_cap': 80 if q else 200, 'exh_len': 4, 'n_rand': 40, 'n_mut': 30, 'long': (30, 300) if q else (100, 1000), 'n_ws': 4, 'n_raw': 2}
+    cfg = {'modes': [0, 20, 21, 22, 23, 24, 25, 26, 27, 28, 29, 30, 31, 32, 33], 'exh_cap': 80 if q else 200, 'exh_len': 4, 'n_rand': 40, 'n_mut': 30, 'long': (30, 300) if q else (100, 1000), 'n_ws': 4, 'n_raw': 2}
     merge(ck, run_pipeline('C13', tier, gen_grammars('C13', tier, 128 if q else 1500, 'context'), cfg))
     ck.cov['rule'] = ('grammars mixing >= and >>= functors (and some with none); context categories lvalue, const lvalue, rvalue temporary, move-only lvalue, named objects passed with std::move, through the overloads with and without parse_options / stream; each contextual functor logs whether it '
                       'received the caller\'s object (address), its constness and the number of calls the object has seen, and bumps it; after the call the caller\'s counter must equal the number of '
@@ -906,7 +919,7 @@ def replay(prop, path):
         if isinstance(case, dict) and case.get('grammar') and prop in pipeline.JUDGES:
             from .grammar import Grammar
             g = Grammar.from_json(case['grammar'])
-            modes = {'C01': [0], 'C02': [0, 3, 4], 'C05': [0], 'C08': [0, 1, 11], 'C09': [0, 3, 4, 8, 9], 'C10': [0, 3, 4, 7, 8, 9], 'C11': [1], 'C13': [0, 20, 21, 22, 23, 24, 25, 26, 27, 28, 29, 30, 31], 'C14': [0], 'C16': [0, 1, 2, 5, 6, 8, 9, 12, 13], 'C18': [0, 1, 3, 4, 7, 8, 9]}[prop]
+            modes = {'C01': [0], 'C02': [0, 3, 4], 'C05': [0], 'C08': [0, 1, 11], 'C09': [0, 3, 4, 8, 9], 'C10': [0, 3, 4, 7, 8, 9], 'C11': [1], 'C13': [0, 20, 21, 22, 23, 24, 25, 26, 27, 28, 29, 30, 31, 32, 33], 'C14': [0], 'C16': [0, 1, 2, 5, 6, 8, 9, 12, 13], 'C18': [0, 1, 3, 4, 7, 8, 9]}[prop]
             inputs = [case['input']] if case.get('input') is not None else ['']
             spec = {'prop': prop, 'grammars': [g.to_json()], 'seed': 1, 'flavour': 'clang', 'cfg': {'modes': modes, 'timeout': 300}, 'explicit_inputs': [inputs]}
             outs = [pipeline.worker(spec)]
